@@ -8,6 +8,7 @@ import (
 	"io"
 	"os"
 	"os/exec"
+	"sync"
 	"path/filepath"
 	"time"
 
@@ -56,6 +57,9 @@ func vpCmd(o vpOpts) *exec.Cmd {
 	}
 	b, _ := json.Marshal(pc)
 	cmd := exec.Command(vpluginPath())
+	launchedMu.Lock()
+	launched = append(launched, cmd)
+	launchedMu.Unlock()
 	cmd.Env = append(os.Environ(), "VP_CONFIG="+string(b))
 	if o.TmpDir != "" {
 		cmd.Env = append(cmd.Env, "TMPDIR="+o.TmpDir)
@@ -143,5 +147,22 @@ func startVP(o vpOpts) (*plugin.Client, vp.Caller, error) {
 	case <-time.After(to + 15*time.Second):
 		go cl.Kill()
 		return nil, nil, fmt.Errorf("client: start did not return in time")
+	}
+}
+
+// every vplugin command this process prepared; reapLaunched kills what is still running of them when the family is done
+// (a clean-up whose Kill was cut short by the end of the run must not leave a plugin behind)
+var (
+	launchedMu sync.Mutex
+	launched   []*exec.Cmd
+)
+
+func reapLaunched() {
+	launchedMu.Lock()
+	defer launchedMu.Unlock()
+	for _, c := range launched {
+		if c.Process != nil {
+			c.Process.Kill()
+		}
 	}
 }
